@@ -373,8 +373,18 @@ package core
 //@   opt deterministic on
 //@   effect vcount self
 //@   effect vok self := result.0
+// Ghost event: outsvalidated[0] counts calls of LazyArgumentMap.ValidateOutputs. Unless enforcement is
+// disabled, a chunk of a stage that declares stage-level outputs has its outs record validated
+// (the early return is only for stages with neither stage nor chunk outputs).
+//@ func core.LazyArgumentMap.ValidateOutputs property C06
+//@   trusted
+//@   effect outsvalidated 0
+//@ func syntax.GetEnforcementLevel property C06
+//@   pure
+//@   opt deterministic on
 //@ func core.Chunk.verifyOutput property C06
 //@   effect cbad self.fork := ghost(cbad)[self.fork] + (result ? 0 : 1)
+//@   ensures @validated fn(syntax.GetEnforcementLevel) > syntax.EnforceDisable && output != nil && len(fn(core.Fork.OutParams, self.fork).List) > 0 ==> ghost(outsvalidated)[0] > old(ghost(outsvalidated)[0])
 //@   ensures ghost(runs) == old(ghost(runs)) && ghost(completes) == old(ghost(completes))
 //@ func core.Fork.Split property C03 C01
 //@   pure
